@@ -49,10 +49,16 @@ class Obligation:
     status: str = "pending"   # holds | violated | inconclusive
     witness: dict | None = None
     detail: str = ""
+    bad: object = None        # custom failure condition (default: traps, or emitted != expected)
+    role_suffix: str = ""     # appended to the role key: a distinct failure class of the same expression
+
+    def bad_term(self):
+        if self.bad is not None:
+            return self.bad
+        return tm.bor(self.trap, tm.bnot(tm.eq(self.emitted, self.expected)))
 
     def negated_goal(self):
-        bad = tm.bor(self.trap, tm.bnot(tm.eq(self.emitted, self.expected)))
-        return tm.band(self.pre, bad)
+        return tm.band(self.pre, self.bad_term())
 
     def query(self):
         return (self.name, self.decls, self.negated_goal())
@@ -302,11 +308,23 @@ def obligations_for(factory, it):
                 exp, pre = canon_lower(it.wit, x, in_lt, out_lt)
             else:
                 exp, pre = canon_lift(it.wit, x, in_lt, out_lt)
+            guard = tm.band(v.term.fp_guard(), trap.fp_guard())
+            if guard is not tm.TRUE:
+                pre = tm.band(pre, guard)
             obs.append(Obligation(it, "main", key + suffix, {"x": in_lt.w}, pre, v.term, exp, trap, in_lt, out_lt, mode_name))
+            if guard is not tm.TRUE and in_lt.kind == "float" and out_lt.kind == "float":
+                # floating-point conversions in the emitted expression: bit-exactness is stated for non-NaN inputs (above);
+                # a NaN must still come out as a NaN (the canonical ABI may canonicalise payloads, never drop NaN-ness)
+                obs.append(Obligation(it, "main", key + suffix + "#nan-stays-nan", {"x": in_lt.w}, tm.fp_isnan(x),
+                                      tm.fp_isnan(v.term), tm.TRUE, trap, in_lt, out_lt, mode_name))
             if it.wit == "bool" and it.sense == "lift":
-                full = tm.bnot(tm.eq(x, tm.const(0, x.w)))
-                obs.append(Obligation(it, "info", key + suffix + "#any-nonzero-is-true", {"x": in_lt.w}, tm.TRUE, v.term, full, trap,
-                                      in_lt, out_lt, mode_name))
+                # core values other than 0/1: the spec (convert_int_to_bool) lifts every non-zero i32 to true; the abi.rs
+                # doc comment allows trapping.  Lifting a non-zero value to `false` has no source => violation.
+                o2 = Obligation(it, "main", key + suffix + "#nonzero", {"x": in_lt.w},
+                                tm.cmp("ult", tm.const(1, x.w), x), v.term, tm.TRUE, trap, in_lt, out_lt, mode_name)
+                o2.bad = tm.band(tm.bnot(trap), tm.bnot(v.term))
+                o2.role_suffix = "/noncanonical-nonzero-lifts-false"
+                obs.append(o2)
         else:
             if it.sense == "lower":
                 pw = payload_bits(it.pay_wit, in_lt)
@@ -316,7 +334,8 @@ def obligations_for(factory, it):
                 sw = slot_check(it.joined, in_lt)
                 pw = payload_bits(it.pay_wit, out_lt)
                 exp = tm.extract(x, pw - 1, 0)
-            obs.append(Obligation(it, "main", key + suffix, {"x": in_lt.w}, tm.TRUE, v.term, exp, trap, in_lt, out_lt, mode_name))
+            guard = tm.band(v.term.fp_guard(), trap.fp_guard())
+            obs.append(Obligation(it, "main", key + suffix, {"x": in_lt.w}, guard, v.term, exp, trap, in_lt, out_lt, mode_name))
         per_mode.append(obs)
     if len(per_mode) == 2 and all(a.emitted.smt() == b.emitted.smt() and a.trap.smt() == b.trap.smt()
                                   for a, b in zip(per_mode[0], per_mode[1])):
